@@ -98,6 +98,14 @@ impl<A: Visit, B: Visit> Visit for (A, B) {
 		self.1.visit(poison, f)
 	}
 }
+impl<A: Visit, B: Visit, C: Visit, D: Visit> Visit for (A, B, C, D) {
+	fn visit(&self, poison: &mut Vec<bool>, f: &mut VisitFn<'_>) {
+		self.0.visit(poison, f);
+		self.1.visit(poison, f);
+		self.2.visit(poison, f);
+		self.3.visit(poison, f)
+	}
+}
 impl<A: Visit, B: Visit, C: Visit> Visit for (A, B, C) {
 	fn visit(&self, poison: &mut Vec<bool>, f: &mut VisitFn<'_>) {
 		self.0.visit(poison, f);
@@ -573,6 +581,12 @@ coll_impl!(<'w> RefLockCollection<'w, Box<[&'w R]>>, "Ref<Box<[&RwLock]>>", rw);
 coll_impl!(<'w> RetryingLockCollection<Box<[&'w R]>>, "Retrying<Box<[&RwLock]>>", rw);
 coll_impl!(<'w> BoxedLockCollection<(Vec<&'w M>, Vec<&'w R>)>, "Boxed<(Vec<&Mutex>,Vec<&RwLock>)>", x);
 coll_impl!(<'w> BoxedLockCollection<(&'w R, &'w R, &'w PR)>, "Boxed<(&RwLock,&RwLock,&Poisonable<RwLock>)>", rw);
+coll_impl!(<'w> BoxedLockCollection<[OwnedLockCollection<[R; 0]>; 2]>, "Boxed<[Owned<[RwLock;0]>;2]>", rw);
+coll_impl!(<'w> RefLockCollection<'w, [OwnedLockCollection<[R; 0]>; 2]>, "Ref<[Owned<[RwLock;0]>;2]>", rw);
+coll_impl!(<'w> RetryingLockCollection<[OwnedLockCollection<[R; 0]>; 2]>, "Retrying<[Owned<[RwLock;0]>;2]>", rw);
+coll_impl!(<'w> BoxedLockCollection<(OwnedLockCollection<[R; 0]>, &'w R, OwnedLockCollection<[R; 0]>, &'w R)>, "Boxed<(Owned<[;0]>,&RwLock,Owned<[;0]>,&RwLock)>", rw);
+coll_impl!(<'w> RefLockCollection<'w, (OwnedLockCollection<[R; 0]>, &'w R, OwnedLockCollection<[R; 0]>, &'w R)>, "Ref<(Owned<[;0]>,&RwLock,Owned<[;0]>,&RwLock)>", rw);
+coll_impl!(<'w> RetryingLockCollection<(OwnedLockCollection<[R; 0]>, &'w R, OwnedLockCollection<[R; 0]>, &'w R)>, "Retrying<(Owned<[;0]>,&RwLock,Owned<[;0]>,&RwLock)>", rw);
 // unchecked-at-runtime constructors over owning inputs
 coll_impl!(<'w> BoxedLockCollection<&'w OW>, "Boxed<&Owned> (new_ref)", rw);
 coll_impl!(<'w> RefLockCollection<'w, OW>, "Ref<Owned> (new)", rw);
